@@ -60,6 +60,7 @@ def _call(beh, dtype, mode):
     ver = A._version
     upper = bool(beh["upper"])
     k = beh["max_tries"]
+    jb = float(beh.get("jbase", 1))
     fails = []
     out_buf = torch.empty_like(A) if mode == "out" else None
     rec = _Recorder(A0)
@@ -68,14 +69,14 @@ def _call(beh, dtype, mode):
         warnings.simplefilter("always")
         try:
             if mode == "args":
-                res = psd_safe_cholesky(A, upper=upper, jitter=1.0, max_tries=k)
+                res = psd_safe_cholesky(A, upper=upper, jitter=jb, max_tries=k)
             elif mode == "out":
-                res = psd_safe_cholesky(A, upper=upper, out=out_buf, jitter=1.0, max_tries=k)
+                res = psd_safe_cholesky(A, upper=upper, out=out_buf, jitter=jb, max_tries=k)
             elif mode == "settings":
-                with settings.cholesky_jitter(float_value=1.0, double_value=1.0), settings.cholesky_max_tries(k):
+                with settings.cholesky_jitter(float_value=jb, double_value=jb), settings.cholesky_max_tries(k):
                     res = psd_safe_cholesky(A, upper=upper)
             elif mode == "operator":
-                with settings.cholesky_jitter(float_value=1.0, double_value=1.0), settings.cholesky_max_tries(k):
+                with settings.cholesky_jitter(float_value=jb, double_value=jb), settings.cholesky_max_tries(k):
                     res = DenseLinearOperator(A).cholesky(upper=upper).to_dense()
         except Exception as e:  # noqa
             exc = e
